@@ -35,6 +35,30 @@ CsrLowering(c, a, b) ==
   ELSE IF ~NoStateLeft(c.B) THEN "NoStateLeft"
   ELSE MatchCsr(c.accdecl, a.log, 1, b.log, 1)
 
+(* ---- C04, an accelerator-specific launch: gemmx with per-channel rescale parameters for more output channels than the array is wide.
+   The launch becomes: M and temporal_loop_bound := m / groups; one launch of the streamers; then for every group of n output channels
+   the shift words (four 8-bit shifts per register, channel 4j in the low byte) and the n multipliers of that group, one launch of the
+   array and an await - every write to the address the accelerator declares for that field, in this order, and every poll on the declared
+   barrier register ---- *)
+GemmxLaunch(c, b) ==
+  LET x == c.gl
+      w == SelectSeq(b.log, LAMBDA e : e.k = "w")
+      nsh == Len(x.ashift)
+      Sh(i, q) == IF q < x.n THEN x.shifts[i * x.n + q + 1] ELSE 0
+      ShiftWord(i, j) == Sh(i, 4 * j) + 256 * Sh(i, 4 * j + 1) + 65536 * Sh(i, 4 * j + 2) + 16777216 * Sh(i, 4 * j + 3)
+      GroupWrites(i) == [j \in 1..nsh |-> <<x.ashift[j], ShiftWord(i, j - 1)>>]
+                        \o [cc \in 1..x.n |-> <<x.amult[cc], x.mults[i * x.n + cc]>>] \o << <<x.aLG, x.lg>> >>
+      RECURSIVE AllGroups(_)
+      AllGroups(i) == IF i >= x.groups THEN <<>> ELSE GroupWrites(i) \o AllGroups(i + 1)
+      exp == << <<x.aM, x.m \div x.groups>>, <<x.aTLB, x.m \div x.groups>>, <<x.aLS, x.ls>> >> \o AllGroups(0) IN
+  IF b.fault # "none" THEN "B.fault:" \o b.fault
+  ELSE IF ~NoStateLeft(c.B) THEN "NoStateLeft"
+  ELSE IF [k \in DOMAIN w |-> <<w[k].addr, w[k].v>>] # exp THEN "PerGroupWrites"
+  ELSE IF \E k \in DOMAIN b.log : b.log[k].k = "r" /\ b.log[k].addr # x.barrier THEN "PollsDeclaredBarrier"
+  ELSE IF \E k \in DOMAIN b.log : b.log[k].k = "w" /\ b.log[k].addr = x.aLG /\ ~(k < Len(b.log) /\ b.log[k + 1].k = "r")
+       THEN "AwaitAfterEveryGroupLaunch"
+  ELSE "ok"
+
 (* ---- same side effects (C17 loop restructuring) ---- *)
 EffectEventOK(ea, eb) ==
   /\ ea.k = eb.k
@@ -331,6 +355,7 @@ Judge(contract, c, orc, a, b) ==
          [] contract = "scalar" -> SameScalar(c, orc, a, b)
          [] contract = "allocsize" -> AllocSize(c, orc, a, b)
          [] contract = "placement" -> Placement(c, orc, a, b)
+         [] contract = "gemmxlaunch" -> GemmxLaunch(c, b)
          [] contract = "casts" -> Casts(c, orc, a, b)
          [] contract = "tslops" -> TslOps(c, orc, a, b)
          [] contract = "resets" -> Resets(c, orc, a, b)
